@@ -10,12 +10,15 @@ Tie / validation: the REAL ThreadedMailboxProcessor is run through Context.get_i
 is runnable (quiescence: every live thread is blocked in Condition.wait — on a full mailbox, at the fetch gate or on a
 message that is not there); the number of source `compute` calls is read off before and after; the consumer then
 resumes and the run is completed.  The same is done for a run of N and of 2N source chunks.
-Oracle (independent of the model): (a) the number of further source chunks is the same for N and 2N and at most
-B(wiring, capacity); at every scheduler step  emitted - pulled <= B;  (b) len(_mailbox) <= max_messages after every
-scheduler step; (c) whenever the sender of a lazy mailbox advances its source (mailbox not killed) some driving
-subscriber waits for a number that is not in the heap; plus: no deadlock, the resumed run delivers all N chunks.
-For chains under the deterministic priority schedules the counts are also diffed with the Lean chain model
-(`c13.rest`), and the wiring (mailboxes, capacities, drivers) of every real processor is diffed with `c13.wire`.
+Oracle (independent of the model, exactly the property's wording): (a) the number of further source chunks after the
+pause is the same for N and 2N and at most the bound PROVED for the wiring (chains: chain_rest_bound*; other graphs:
+pathBound of dag_rest_bound); (b) eager mode: len(_mailbox) <= max_messages after every scheduler step; (c) lazy mode:
+whenever the sender of a mailbox advances its source (mailbox not killed) some driving subscriber waits for a number that
+is not in the heap; and the run must be measurable (pause reached, everything else at rest, nothing died, the resumed run
+complete).  Tighter numbers that are measured but not proved (lazy non-chains: 1) are reported in the evidence only.
+Correspondences: chains incl. worker pools vs the Lean chain model (`c13.rest`: counts, buffered messages, wiring); every
+shape vs `Net.step` of c06's net model (`c13.netrest`: n_sent of every mailbox at the pause and at rest); the hypotheses and
+the bound of the net-level theorems on the wired net (`c13.path`); the stand-alone mailbox vs `c05.run`.
 """
 from __future__ import annotations
 
@@ -190,19 +193,30 @@ def path_mailboxes(case):
 
 
 def bound(case):
-    """B(wiring, cap): `emitted - pulled <= B` at every step, hence at most B further source chunks once the consumer
-    stops.  Eager: B = 2 * sum of max_messages over the mailboxes on the (cheapest) path source -> target — per mailbox
-    at most cap messages buffered plus at most cap taken out of it in one batch by its reader and not passed on yet
-    (`to_yield` of Mailbox._read; the chunk being computed / waiting to be sent is one of them).  Lazy (savers do not
-    drive): B = 1, one chunk under way.  Proved for chains (Props/C13Net.lean: chain_rest_bound, chain_rest_bound_lazy);
-    for the other shapes the same formula is what is measured here.  With a worker pool (eager only) messages are
-    futures and the consumer's reader waits for the result of the one it has taken before handing it on: B + 1."""
+    """The PROVED bound on the number of further source chunks once the consumer stops, for this wiring (None = no theorem):
+    * chains (flag-level chain model, Props/C13Net.lean): eager `B = 2 * sum(max_messages)` (chain_rest_bound_paused), eager
+      with a worker pool `B + 1` (chain_rest_bound_pool_paused), lazy `1` (chain_rest_bound_lazy_paused; savers do not drive);
+    * every other graph (Props/C13Dag.lean, dag_rest_bound_paused): `pathBound` = 2 * sum(max_messages) over the mailboxes
+      of the cheapest path source -> target (one-to-one plugins: lag 1, pathLagR 0), lazy and eager alike; with a worker pool
+      there is no theorem (futures are not in Model/Net.lean).
+    What is measured tighter than that (lazy DAGs: 1) is reported in the evidence notes, not enforced."""
     w = wiring(case)
     path = path_mailboxes(case)
     eager = 2 * sum(w[m]["cap"] for m in path)
+    if is_chain(case):
+        if case["lazy"]:
+            return 1
+        return eager + 1 if case.get("workers") else eager
     if case.get("workers") and not case["lazy"]:
-        return eager + 1          # worker pool: the consumer may hold one more message, the future it is waiting for
-    return min(1, eager) if case["lazy"] else eager
+        return None
+    return eager
+
+
+def proved_by(case):
+    if is_chain(case):
+        return "chain_rest_bound_lazy_paused" if case["lazy"] else \
+            ("chain_rest_bound_pool_paused" if case.get("workers") else "chain_rest_bound_paused")
+    return None if (case.get("workers") and not case["lazy"]) else "dag_rest_bound_paused"
 
 
 # ============================================================================= real plugins
@@ -332,6 +346,68 @@ class MemFrontend(strax.StorageFrontend):
         pass
 
 
+class AwaitFuture(S.SFuture):
+    """future of `AwaitExecutor`: registers who waits for it"""
+
+    def __init__(self, sched, ex):
+        super().__init__(sched)
+        self._ex = ex
+
+    def result(self, timeout=None):
+        if not self.done():
+            me = self._sched.current()
+            self._ex.awaited[self] = me.name if me is not None else "?"
+            try:
+                return super().result(timeout)
+            finally:
+                self._ex.awaited.pop(self, None)
+        return super().result(0)
+
+
+class AwaitExecutor:
+    """harness stand-in for the thread pool that mirrors `Tid.resolve` of Model/Backpressure.lean: ONE worker task; a job
+    is run (one atomic step) only while some task is blocked in `result()` of its future; among the awaited futures the one
+    awaited by the most upstream task first.  (The executor is harness either way; what is under test is the mailbox /
+    processor code that handles the futures.)"""
+
+    def __init__(self, sched, depth):
+        self.sched, self.depth = sched, depth
+        self.jobs, self.awaited = {}, {}
+        self.worker, self.down = None, False
+
+    def _ready(self):
+        r = [f for f in self.jobs if f in self.awaited]
+        return sorted(r, key=lambda f: self.depth.get(self.awaited[f], 1000))
+
+    def _work(self):
+        while True:
+            self.sched.block(lambda: bool(self._ready()) or self.down, "pool-idle", can_timeout=False)
+            todo = self._ready()[:1] if not self.down else list(self.jobs)
+            for f in todo:
+                fn, a, kw = self.jobs.pop(f)
+                if f.set_running_or_notify_cancel():
+                    try:
+                        f.set_result(fn(*a, **kw))
+                    except BaseException as e:  # noqa: BLE001
+                        if isinstance(e, S._Abort):
+                            raise
+                        f.set_exception(e)
+            if self.down and not self.jobs:
+                return
+
+    def submit(self, fn, *a, **kw):
+        f = AwaitFuture(self.sched, self)
+        self.jobs[f] = (fn, a, kw)
+        if self.worker is None:
+            self.worker = self.sched.spawn(self._work, "pool0")
+        return f
+
+    def shutdown(self, wait=True, cancel_futures=False):
+        self.down = True
+        if wait and self.worker is not None and self.sched.current() is not None:
+            self.worker.join()
+
+
 class PauseStrategy:
     """`pre` before the pause and after the resume; while the consumer is paused: `post` among the OTHER tasks; the
     consumer is chosen only when nothing else is runnable (= quiescence)"""
@@ -381,10 +457,11 @@ def make_strategy(spec, case):
     if k == "pct":
         return S.PCTStrategy(random.Random(spec["seed"]), depth=spec.get("depth", 3), est_steps=spec.get("est", 200))
     dep = thread_depths(case)
+    dep["pool0"] = 98.5 if k == "up" else 1000      # the worker of AwaitExecutor: like Policy.prio of Tid.resolve
     if k == "up":          # adversarial: whoever is furthest upstream runs (fills every buffer before it is drained)
         return S.PriorityStrategy({n: v for n, v in dep.items()}, default=50)
     if k == "down":        # whoever is furthest downstream runs (drains first)
-        return S.PriorityStrategy({n: -v for n, v in dep.items()}, default=-50)
+        return S.PriorityStrategy({n: (v if n == "pool0" else -v) for n, v in dep.items()}, default=-50)
     if k == "lagsave":     # upstream first, savers / discarders last (lagging side readers)
         return S.PriorityStrategy({n: (v + 100 if n.startswith(("save_", "discard_")) else v) for n, v in dep.items()}, default=50)
     raise ValueError(k)
@@ -481,6 +558,12 @@ def run_pipeline(case, n):
         q["runnable"] = len([t for t in live if t.is_runnable()])
         return q
 
+    def heaps(proc):
+        return [len(proc.mailboxes[m]._mailbox) if m in proc.mailboxes else -1 for m in path_mailboxes(case)]
+
+    def nsent(proc):
+        return [int(m._n_sent) for m in proc.mailboxes.values()]
+
     def main():
         try:
             ctx = strax.Context(storage=[store], register=build_classes(case, st),
@@ -494,9 +577,13 @@ def run_pipeline(case, n):
                     obs["wiring"] = observe_wiring(holder["proc"])
                 if obs["got"] == k:
                     obs["e_pause"] = st["emitted"]
+                    obs["heaps_pause"] = heaps(holder["proc"])
+                    obs["nsent_pause"] = nsent(holder["proc"])
                     st["paused"] = True
                     sc.yield_point("paused")          # returns when nothing else is runnable
                     obs["e_quiet"] = st["emitted"]
+                    obs["heaps_quiet"] = heaps(holder["proc"])
+                    obs["nsent_quiet"] = nsent(holder["proc"])
                     obs["quiet"] = quiescence(sc, holder["proc"])
                     st["paused"] = False
                 sc.yield_point("consumer")
@@ -514,8 +601,11 @@ def run_pipeline(case, n):
             saved_futures = tmm.futures
             if workers:
                 import types
-                fut_ns = types.SimpleNamespace(ThreadPoolExecutor=lambda max_workers=None: S.SchedExecutor(sc, max_workers or 2),
-                                               ProcessPoolExecutor=saved_futures.ProcessPoolExecutor)
+                if case.get("await_pool"):
+                    mk_ex = lambda max_workers=None: AwaitExecutor(sc, thread_depths(case))  # noqa: E731
+                else:
+                    mk_ex = lambda max_workers=None: S.SchedExecutor(sc, max_workers or 2)  # noqa: E731
+                fut_ns = types.SimpleNamespace(ThreadPoolExecutor=mk_ex, ProcessPoolExecutor=saved_futures.ProcessPoolExecutor)
                 tmm.futures = fut_ns
             try:
                 sc.spawn(main, "main")
@@ -531,6 +621,11 @@ def run_pipeline(case, n):
     obs["steps"] = sc.nsteps
     obs["thread_exc"] = sorted(f"{t.name}:{type(t.exc).__name__}" for t in sc.tasks if t.exc is not None)
     obs["B"] = B
+    # the fixed priorities the run used, as an explicit order of thread names (ties: order of creation)
+    if case["pre"]["kind"] in ("up", "down", "lagsave") and case["pre"] == case["post"]:
+        order = getattr(strat.pre, "order", {})
+        dflt = getattr(strat.pre, "default", 0)
+        obs["prio"] = [t.name for t in sorted(sc.tasks, key=lambda t: (order.get(t.name, dflt), t.index))]
     return obs
 
 
@@ -559,6 +654,28 @@ def op_path(case, comp, n):
     savers = ",".join(f"{d}={k}" for d, k in comp["savers"]) or "-"
     mw = "-" if comp["max_workers"] is None else comp["max_workers"]
     return f"c13.path {comp['allow_lazy']} {mw} {comp['max_messages']} {','.join(comp['targets'])} - {defs} {plugins} {savers}"
+
+
+def op_netrest(case, comp, n, prio):
+    base = op_path(case, comp, n)
+    if base is None or not prio:
+        return None
+    return "c13.netrest" + base[len("c13.path"):] + f" {case['k']} {','.join(x for x in prio if x != 'pool0')}"
+
+
+def net_cases(rng, count):
+    """every shape under the fixed-priority schedules (no worker pool: futures are not in Model/Net.lean): these runs are
+    replayed by `Net.step` (c13.netrest)"""
+    out = []
+    for _ in range(count):
+        shape = rng.choice(SHAPES)
+        ts = types_of(shape)
+        save = ",".join(t for t in ts if rng.random() < 0.35)
+        pol = rng.choice(["up", "down", "lagsave"])
+        c = mk_case(shape, rng.choice([1, 2, 2, 3]), rng.random() < 0.45, rng.choice([1, 2, 3, 5]), dict(kind=pol), dict(kind=pol), save)
+        c["sync_start"] = 1
+        out.append(c)
+    return out
 
 
 def path_line(case):
@@ -592,7 +709,8 @@ POLICY = {"up": "up", "down": "down", "lagsave": "lag"}
 
 def op_rest(case):
     caps, sav = chain_params(case)
-    return f"c13.rest {case['lazy']} {caps} {sav} {case['n']} {case['k']} {POLICY[case['pre']['kind']]} {POLICY[case['post']['kind']]}"
+    return (f"c13.rest {case['lazy']} {caps} {sav} {1 if case.get('workers') else 0} {case['n']} {case['k']} "
+            f"{POLICY[case['pre']['kind']]} {POLICY[case['post']['kind']]}")
 
 
 def wire_line(case, obs):
@@ -642,35 +760,34 @@ def summarise(case, o1, o2):
 
 
 def judge(case, obs_list):
-    """the property's own wording, evaluated on what the real pipeline did"""
+    """the property's own wording, evaluated on what the real pipeline did: (a) further source chunks after the pause equal
+    for n and 2n and at most the proved bound of the wiring, (b) eager: no mailbox buffers more than max_messages at any
+    scheduler step, (c) lazy: the gate condition at every advance of a mailbox's source; and the run must be measurable at all
+    (the consumer reaches its pause, everything else comes to rest, nothing dies)"""
     B = bound(case)
     for tag, o in obs_list:
         n = o["n"]
         if o["exc"]:
-            return f"{tag}: the consumer got {o['exc']}"
+            return f"{tag}: not measurable: the consumer got {o['exc']}"
         if o["thread_exc"]:
-            return f"{tag}: threads died: {o['thread_exc']}"
+            return f"{tag}: not measurable: threads died: {o['thread_exc']}"
         if o["deadlocks"]:
-            return f"{tag}: deadlock, blocked: {o['dead_where']}"
+            return f"{tag}: not measurable: deadlock, blocked: {o['dead_where']}"
         if o["got"] != n:
-            return f"{tag}: the resumed run delivered {o['got']} chunks of {n}"
-        if o["cap_bad"]:
+            return f"{tag}: not measurable: the resumed run delivered {o['got']} chunks of {n}"
+        if o["cap_bad"] and not case["lazy"]:
             return f"{tag}: (b) capacity exceeded: {o['cap_bad'][0]}"
         if o["gate_bad"]:
             return (f"{tag}: (c) a lazy sender advanced its source while no driving subscriber was waiting for a message "
                     f"that is not in the heap: {o['gate_bad'][0]}")
-        w = wiring_diff(case, o)
-        if w:
-            return f"{tag}: wiring: {w}"
         if o["e_quiet"] is None:
-            return f"{tag}: the consumer never reached its pause after {case['k']} chunks"
+            return f"{tag}: not measurable: the consumer never reached its pause after {case['k']} chunks"
         q = o["quiet"]
         if q["other"] or q["runnable"]:
-            return f"{tag}: not at rest: {q}"
-        if o["max_excess"] > B:
-            return f"{tag}: (a) emitted - pulled reached {o['max_excess']} > B = {B}"
-        if o["e_quiet"] - o["e_pause"] > B:
-            return f"{tag}: (a) {o['e_quiet'] - o['e_pause']} further source chunks after the pause > B = {B}"
+            return f"{tag}: the pipeline did not come to rest: {q}"
+        if B is not None and o["e_quiet"] - o["e_pause"] > B:
+            return (f"{tag}: (a) {o['e_quiet'] - o['e_pause']} further source chunks after the pause > {B}, the bound "
+                    f"proved for this wiring ({proved_by(case)})")
     if len(obs_list) == 2:
         (_, a), (_, b) = obs_list
         fa, fb = a["e_quiet"] - a["e_pause"], b["e_quiet"] - b["e_pause"]
@@ -678,8 +795,6 @@ def judge(case, obs_list):
         if fa != fb and not exhausted:
             return (f"(a) further source chunks after the pause depend on the run length: {fa} for n={a['n']}, {fb} for "
                     f"n={b['n']} (same schedule seeds)")
-        if exhausted and fb > B:
-            return f"(a) {fb} further chunks for n={b['n']} > B = {B}"
     return None
 
 
@@ -722,7 +837,7 @@ def types_of(shape):
 
 def mk_case(shape, cap, lazy, k, pre, post, save="", mm=None, workers=0, n=None):
     case = dict(graph=make_graph(shape, save, mm), cap=cap, lazy=int(lazy), k=k, pre=pre, post=post, workers=workers)
-    B = bound(case) if not lazy else 2 * sum(wiring(case)[m]["cap"] for m in path_mailboxes(case))
+    B = 2 * sum(wiring(case)[m]["cap"] for m in path_mailboxes(case)) + 1
     case["n"] = n if n is not None else k + B + 2
     return case
 
@@ -765,8 +880,16 @@ def chain_model_cases(rng, count):
         mm = {rng.choice(ts): rng.randint(1, 4)} if rng.random() < 0.3 else None
         pol = rng.choice(["up", "down", "lagsave"])
         post = rng.choice(["up", "down", "lagsave"]) if rng.random() < 0.5 else pol
-        c = mk_case(f"chain{L}", rng.choice([1, 2, 2, 3, 4]), rng.random() < 0.4, rng.choice([1, 2, 3, 5]),
-                    dict(kind=pol), dict(kind=post), save, mm)
+        pool = L >= 1 and rng.random() < 0.25
+        if pool:
+            # worker pool (eager): every stage sends futures; tied through AwaitExecutor / Tid.resolve.  No savers: in the
+            # model savers do not wait for the results of futures
+            c = mk_case(f"chain{L}", rng.choice([1, 2, 2, 3]), False, rng.choice([1, 2, 3, 5]), dict(kind=pol), dict(kind=post),
+                        "", mm, workers=2)
+            c["await_pool"] = 1
+        else:
+            c = mk_case(f"chain{L}", rng.choice([1, 2, 2, 3, 4]), rng.random() < 0.4, rng.choice([1, 2, 3, 5]),
+                        dict(kind=pol), dict(kind=post), save, mm)
         c["sync_start"] = 1
         out.append(c)
     return out
@@ -834,19 +957,28 @@ def run(ctx):
     quick = not ctx.thorough
     stats = {}
     t0 = time.time()
+    scale = float(os.environ.get("VERIF_C13_SCALE", "1"))      # development only (mutant runs)
+    pick = lambda q, t: max(20, int(ctx.pick(q, t) * scale))   # noqa: E731
+
+    wiring_bad = []
 
     def note_stats(case, o):
-        key = (case["graph"]["shape"], "lazy" if case["lazy"] else "eager")
-        st = stats.setdefault(key, dict(runs=0, max_excess=0, max_further=0, bound=0, tight=0))
+        key = (case["graph"]["shape"], "lazy" if case["lazy"] else ("pool" if case.get("workers") else "eager"))
+        st = stats.setdefault(key, dict(runs=0, max_excess=0, max_further=0, max_len_over=0, slack=None, proved=proved_by(case)))
         st["runs"] += 1
         st["max_excess"] = max(st["max_excess"], o["max_excess"])
         if o["e_quiet"] is not None:
-            st["max_further"] = max(st["max_further"], o["e_quiet"] - o["e_pause"])
-        st["tight"] += int(o["max_excess"] == o["B"])
-        st["bound"] = max(st["bound"], o["B"])
+            f = o["e_quiet"] - o["e_pause"]
+            st["max_further"] = max(st["max_further"], f)
+            if o["B"] is not None:
+                st["slack"] = o["B"] - f if st["slack"] is None else min(st["slack"], o["B"] - f)
+        st["max_len_over"] = max(st["max_len_over"], 1 if o["cap_bad"] else 0)
+        wd = wiring_diff(case, o)
+        if wd and len(wiring_bad) < 5:
+            wiring_bad.append((case, wd))
 
     # 1. chains under deterministic priority schedules: real pipeline vs the Lean chain model (counts and wiring)
-    cases = chain_model_cases(rng, ctx.pick(600, 4000))
+    cases = chain_model_cases(rng, pick(600, 4000))
     res = {}
     for i, c in enumerate(cases):
         c["i"] = i
@@ -857,18 +989,42 @@ def run(ctx):
     def impl1(c):
         o = res[c["i"]]
         rest = int(o["quiet"] is not None and not o["quiet"]["other"] and not o["quiet"]["runnable"])
-        return f"ok wire={wire_line(c, o)} pause={o['e_pause']} quiet={o['e_quiet']} rest={rest} B={o['B']}"
+        hv = lambda h: ".".join(map(str, h or [])) or "-"  # noqa: E731
+        return (f"ok wire={wire_line(c, o)} pause={o['e_pause']} quiet={o['e_quiet']} heaps={hv(o.get('heaps_pause'))}/"
+                f"{hv(o.get('heaps_quiet'))} rest={rest} B={o['B']}")
     ctx.correspond("chain/model", cases, impl1, op_rest, lambda c, out: judge(c, [("n", res[c["i"]])]),
                    nontrivial=lambda c, out: res[c["i"]]["e_quiet"] is not None and res[c["i"]]["got"] == c["n"],
                    rule="chains under the priority schedules up/down/lag, run by the real processor and by the Lean chain model; "
                         "non-trivial = paused, at rest, resumed to the end",
                    branch=branch_rest)
 
-    ctx.note(f"phase chain/model: {time.time() - t0:.1f}s")
+    # 1b. every shape under fixed priorities: the real pipeline vs the DYNAMICS of c06's net model (`Net.step` on the net
+    #     that `wire` builds from the components the real processor was given): n_sent of every mailbox at the pause and at rest
+    ncases = net_cases(rng, pick(350, 2500))
+    nres = {}
+    for i, c in enumerate(ncases):
+        c["i"] = i
+        o = run_single(c)
+        nres[i] = o
+        note_stats(c, o)
+        c["op"] = op_netrest(c, o.get("components"), c["n"], o.get("prio"))
+
+    def impl_net(c):
+        o = nres[c["i"]]
+        v = lambda x: ".".join(map(str, x or [])) or "-"  # noqa: E731
+        rest = int(o["quiet"] is not None and not o["quiet"]["other"] and not o["quiet"]["runnable"])
+        return f"ok pause={v(o.get('nsent_pause'))} quiet={v(o.get('nsent_quiet'))} rest={rest}"
+    ctx.correspond("graph/net-dynamics", ncases, impl_net, lambda c: c["op"], lambda c, out: judge(c, [("n", nres[c["i"]])]),
+                   nontrivial=lambda c, out: nres[c["i"]]["e_quiet"] is not None and nres[c["i"]]["got"] == c["n"],
+                   rule="chains, diamonds and multi-output graphs under the fixed-priority schedules up/down/lag: the real processor vs "
+                        "`Net.step` of c06's net model under the same priorities (c13.netrest); compared: n_sent of every mailbox when "
+                        "the consumer pauses and when everything else has come to rest",
+                   branch=branch_rest)
+    ctx.note(f"phase chain/model + graph/net-dynamics: {time.time() - t0:.1f}s")
     t0 = time.time()
     # 2. all shapes, random / PCT / adversarial schedules, runs of n and 2n chunks (oracle)
     cases = every_k_cases()
-    cases += [random_case(rng, quick) for _ in range(ctx.pick(1100, 6500))]
+    cases += [random_case(rng, quick) for _ in range(pick(1000, 6500))]
     res2 = {}
     for i, c in enumerate(cases):
         c["i"] = i
@@ -903,7 +1059,7 @@ def run(ctx):
     t0 = time.time()
     # 3. stand-alone mailbox: the gate condition at every fetch of a lazy mailbox (also diffed with the mailbox model)
     from props import c05
-    gcases = gate_cases(rng, ctx.pick(3000, 25000))
+    gcases = gate_cases(rng, pick(2500, 25000))
     gres = {}
     for i, c in enumerate(gcases):
         c["i"] = i
@@ -921,11 +1077,19 @@ def run(ctx):
                    branch=lambda c, out: f"drive={c['drive']}/cap={c['cap']}")
 
     ctx.note(f"phase mailbox/gate: {time.time() - t0:.1f}s")
-    ctx.note("bound formula: eager B = 2 * sum(max_messages of the mailboxes on the cheapest path source -> target); lazy B = 1 "
-             "(emitted - pulled <= B at every step; hence at most B further source chunks after the consumer stops)")
+    ctx.note("enforced bound on the further source chunks after the pause = the PROVED bound of the wiring: chains eager 2*sum(max_messages) "
+             "(chain_rest_bound_paused), chains with a worker pool +1 (chain_rest_bound_pool_paused), lazy chains 1 "
+             "(chain_rest_bound_lazy_paused), every other graph pathBound = 2*sum(max_messages) along the cheapest path "
+             "(dag_rest_bound_paused, lazy and eager), other graphs with a worker pool: no theorem, nothing enforced")
     for (shape, mode), st in sorted(stats.items()):
-        ctx.note(f"measured {shape}/{mode}: runs={st['runs']} max(emitted-pulled)={st['max_excess']} max further after pause="
-                 f"{st['max_further']} largest bound={st['bound']} runs attaining their bound={st['tight']}")
+        ctx.note(f"measured {shape}/{mode}: runs={st['runs']} max further chunks after the pause={st['max_further']} "
+                 f"smallest (proved bound - measured)={st['slack']} [{st['proved']}] max(emitted-pulled) at any step={st['max_excess']} "
+                 f"(reported, not enforced){' capacity exceeded in lazy mode (reported, not in the property)' if st['max_len_over'] and mode == 'lazy' else ''}")
+    # the harness's own re-statement of the wiring rules vs the real processor: a disagreement is a broken correspondence, not a
+    # violation of the property's wording
+    for case, wd in wiring_bad:
+        ctx.violation("pipeline/wiring", "correspondence", {"case": case, "op": None}, {"impl": wd, "model": "wiring(case)"},
+                      "the wiring rules re-stated in checks/props/c13.py (capacities, which readers drive) agree with the real processor", False)
 
 
 def search(ctx):
